@@ -191,6 +191,13 @@ func hostileDecInputs(r *rand.Rand, n int, thorough bool) ([][]byte, []string) {
 		add(hdr(append(bytes.Repeat([]byte{0x01, 0x01}, d), 0xA5, 0x01, 0x07)), "valid-deep-nesting")
 		add(hdr(append(bytes.Repeat([]byte{0x01, 0x02, 0x01, 0x00}, d), 0x01, 0x00, 0x01, 0x00)), "valid-deep-nesting")
 	}
+	// the same messages under a header the constructor refuses (reply with the wait bit): what
+	// is spent on a message before it is refused is bounded like everything else
+	reject := func(text []byte) []byte { return frame(1, 1, 2, 1, []byte{0, 0, 0, 1}, text) }
+	for _, d := range []int{100, 400, 1500} {
+		add(reject(append(bytes.Repeat([]byte{0x01, 0x01}, d), 0x01, 0x00)), "refused-reply-deep-nesting")
+		add(reject(append(bytes.Repeat([]byte{0x01, 0x02, 0xA5, 0x01, 0x07}, d), 0x01, 0x00)), "refused-reply-deep-nesting")
+	}
 	// the same with a leaf item next to every nested list: building a list must not walk (and
 	// allocate for) its whole subtree again at every level
 	leaves := [][]byte{{0xA5, 0x01, 0x07}, {0x25, 0x01, 0x01}, {0x69, 0x02, 0x00, 0x07}, {0x91, 0x04, 0x3F, 0x80, 0, 0}, {0x21, 0x01, 0xFF}, {0x41, 0x01, 0x41}, {0xA5, 0x00}}
